@@ -28,18 +28,14 @@ Theorem C02_git_order : forall es, Valid es -> WfNames es ->
 Proof. exact sorted_entries_git_strict. Qed.
 Print Assumptions C02_git_order.
 
-(* Modes are written in git's octal form: parse(oct n) = n, no leading zero;
-   the five DentryPerms of the source print as git's five modes. *)
+(* Modes are written in git's octal form: parse(oct n) = n, no leading zero
+   (that the five DentryPerms of the source print as git's five modes is part of C06). *)
 Theorem C02_mode_octal : forall n, parse_oct (oct n) = Some n.
 Proof. exact parse_oct_oct. Qed.
 Print Assumptions C02_mode_octal.
 Theorem C02_mode_no_leading_zero : forall n, n <> 0%N -> hd 0%N (oct n) <> 48%N.
 Proof. exact oct_no_leading_zero. Qed.
 Print Assumptions C02_mode_no_leading_zero.
-Theorem C02_dentry_perms_table :
-  map oct DENTRY_PERMS = [bs "100644"; bs "100755"; bs "120000"; bs "40000"; bs "160000"].
-Proof. exact dentry_perms_octal. Qed.
-Print Assumptions C02_dentry_perms_table.
 
 (* An independent decoder recovers exactly the (mode, name, target) triples,
    in sorted order, from the manifest ... *)
